@@ -87,6 +87,53 @@ func BuildGraph(p *core.Program) *Graph {
 			t = pt.Elem()
 		}
 	}
+	// static call sites of every in-repo function, to follow an interface-typed parameter back to what callers put in it
+	sites := map[*ssa.Function][]ssa.CallInstruction{}
+	for _, fn := range g.funcs {
+		for _, b := range fn.Blocks {
+			for _, in := range b.Instrs {
+				if c, ok := in.(ssa.CallInstruction); ok {
+					if callee := c.Common().StaticCallee(); callee != nil && inRepoFn(callee) {
+						sites[callee] = append(sites[callee], c)
+					}
+				}
+			}
+		}
+	}
+	// dynTypes: the concrete types an interface value may hold, through conversions, phis and (to a depth of 3) parameters
+	var dynTypes func(v ssa.Value, depth int) []types.Type
+	dynTypes = func(v ssa.Value, depth int) []types.Type {
+		switch x := v.(type) {
+		case *ssa.MakeInterface:
+			return []types.Type{x.X.Type()}
+		case *ssa.ChangeInterface:
+			return dynTypes(x.X, depth)
+		case *ssa.Phi:
+			var out []types.Type
+			for _, e := range x.Edges {
+				out = append(out, dynTypes(e, depth)...)
+			}
+			return out
+		case *ssa.Parameter:
+			if depth <= 0 || x.Parent() == nil {
+				return nil
+			}
+			idx := -1
+			for i, prm := range x.Parent().Params {
+				if prm == x {
+					idx = i
+				}
+			}
+			var out []types.Type
+			for _, c := range sites[x.Parent()] {
+				if idx >= 0 && idx < len(c.Common().Args) {
+					out = append(out, dynTypes(c.Common().Args[idx], depth-1)...)
+				}
+			}
+			return out
+		}
+		return nil
+	}
 	for _, fn := range g.funcs {
 		for _, b := range fn.Blocks {
 			for _, in := range b.Instrs {
@@ -114,8 +161,8 @@ func BuildGraph(p *core.Program) *Graph {
 						// gnark-lean-extractor: abstractor.Call*(api, gadget) invokes gadget.DefineGadget(api)
 						if callee.Pkg != nil && strings.HasSuffix(callee.Pkg.Pkg.Path(), "gnark-lean-extractor/v2/abstractor") && strings.HasPrefix(callee.Name(), "Call") {
 							for _, a := range com.Args {
-								if mi, ok := a.(*ssa.MakeInterface); ok {
-									add(fn, methodOf(mi.X.Type(), "DefineGadget"), in)
+								for _, t := range dynTypes(a, 3) {
+									add(fn, methodOf(t, "DefineGadget"), in)
 								}
 							}
 						}
@@ -130,8 +177,8 @@ func BuildGraph(p *core.Program) *Graph {
 							}
 							if cb != "" {
 								for _, a := range com.Args {
-									if mi, ok := a.(*ssa.MakeInterface); ok {
-										add(fn, methodOf(mi.X.Type(), cb), in)
+									for _, t := range dynTypes(a, 3) {
+										add(fn, methodOf(t, cb), in)
 									}
 								}
 							}
@@ -143,8 +190,8 @@ func BuildGraph(p *core.Program) *Graph {
 									cb = "UnmarshalJSON"
 								}
 								for _, a := range com.Args {
-									if mi, ok := a.(*ssa.MakeInterface); ok {
-										add(fn, methodOf(mi.X.Type(), cb), in)
+									for _, t := range dynTypes(a, 3) {
+										add(fn, methodOf(t, cb), in)
 									}
 								}
 							}
